@@ -192,7 +192,7 @@ def body_E1(ctx):
     steps = sh.get("steps", 4)
     A = start_action(action_type="drv:A")
     B = start_action(action_type="drv:B")
-    drivers = [None, A, B][: sh.get("contexts", 3)]
+    drivers = [None, A, B, "other-Context"][: sh.get("contexts", 3)]
     gens = []
     for i in range(ngen):
         kind = ctx.choose(4, "body kind g%d" % i)
@@ -243,13 +243,19 @@ def body_E1(ctx):
 
         if d is None:
             got = step_fn()
+        elif d == "other-Context":
+            # the driver resumes the generator from another contextvars.Context (another thread,
+            # another asyncio task, copy_context().run): tokens made in one Context are useless in another
+            import contextvars
+
+            got = contextvars.copy_context().run(step_fn)
         else:
             with d.context():
                 got = step_fn()
         g["started"] = True
         g["ctxs"].add(id(d))
         exp = outcome(lambda: do(g["twin"]))
-        script.append((info.name, op, "none" if d is None else d._identification["action_type"], got[0]))
+        script.append((info.name, op, "none" if d is None else (d if isinstance(d, str) else d._identification["action_type"]), got[0]))
         ctx.check(same_outcome(got, exp), "%s.%s: decorated generator gave %r, the undecorated one %r (script %r)", info.name, op, got, exp, script)
         ctx.check(info.received == g["twin_info"].received, "%s: values received inside the body %r differ from the undecorated twin's %r", info.name, info.received, g["twin_info"].received)
         if got[0] != "value":
@@ -342,7 +348,7 @@ def L1(a: int, b: int, r: int) -> bool:
 
 def _shards(tier):
     if tier == "quick":
-        cfgs = [({"gens": 2, "steps": 2, "contexts": 3}, 3), ({"gens": 1, "steps": 3, "contexts": 3}, 3)]
+        cfgs = [({"gens": 2, "steps": 2, "contexts": 3}, 3), ({"gens": 1, "steps": 3, "contexts": 4}, 3)]
     else:
         cfgs = [({"gens": 2, "steps": 3, "contexts": 2}, 4), ({"gens": 1, "steps": 4, "contexts": 2}, 4), ({"gens": 2, "steps": 2, "contexts": 3}, 3)]
     out = []
@@ -374,6 +380,6 @@ OBLIGATIONS = [
         shards=_shards,
         twin=[{"gens": 2, "steps": 2, "contexts": 3, "twin_label": "switching"}],
         timeout={"quick": 100, "thorough": 1500},
-        bounds={"quick": "2 generators (4 body kinds each) x <= 2 driver steps, and 1 generator x <= 3 steps; each step: any live generator x 6 operations x 3 driver contexts", "thorough": "2 generators x <= 3 steps and 1 generator x <= 4 steps with 2 driver contexts; 2 generators x 2 steps with 3 contexts"},
+        bounds={"quick": "2 generators (4 body kinds each) x <= 2 driver steps, and 1 generator x <= 3 steps with a 4th driver context (a different contextvars.Context); each step: any live generator x 6 operations x 3-4 driver contexts", "thorough": "2 generators x <= 3 steps and 1 generator x <= 4 steps with 2 driver contexts; 2 generators x 2 steps with 3 contexts"},
     ),
 ]
